@@ -675,4 +675,346 @@ def c15(ctx):
     ctx.violations = [v for v in ctx.violations if v["kind"] in ("obs:not_faithful", "obs:offers_collide")]
 
 
-TABLE = {"C06": c06, "C19": c19, "C14": c14, "C15": c15}
+# ----------------------------------------------------------------------------------------
+# C16 / C17: compiler
+
+
+def gen_doc(rng, big=False):
+    """Well-formed DSL dictionary with optional sections in random combination, layout variants, init_state."""
+    if big and rng.random() < 0.4:
+        d, feats = gen.gen_instance(rng, rng.choice(["classic", "transport", "buffers", "full"]),
+                                    nj=rng.randint(5, 12), nm=rng.randint(4, 12))
+    else:
+        d, feats = gen.gen_instance(rng, rng.choice(["classic", "transport", "buffers", "full", "full"]),
+                                    nj=rng.choice([1, 2, 2, 3, 4]))
+    ic = d["instance_config"]
+    nj, nm = feats["nj"], feats["nm"]
+    if "logistics" in ic and rng.random() < 0.4:
+        gen.gen_custom_buffers(rng, d, nj)
+        if rng.random() < 0.5:   # a third, compensation buffer
+            ic["buffer"].append({"name": "b-2", "type": "flex_buffer", "capacity": nj, "role": "compensation"})
+    # layout variants
+    if rng.random() < 0.5:
+        ic["instance"]["specification"] = "\n".join(
+            ("  " + l + "  ").replace(" (", rng.choice([" (", "   (", " ("])) for l in ic["instance"]["specification"].split("\n")) + "\n\n"
+    if "logistics" in ic and rng.random() < 0.5:
+        sp = ic["logistics"]["specification"]
+        if "buffer" not in ic:
+            sp = sp.replace("in-buf", rng.choice(["input", "in-buf", "inbuf", "Input-Buffer"])).replace(
+                "out-buf", rng.choice(["output", "out-buf", "Output"]))
+        sp = "\n".join(l.replace(" ", rng.choice([" ", "  ", "\t"])) if "|" in l and k > 0 else l
+                       for k, l in enumerate(sp.split("\n")))
+        ic["logistics"]["specification"] = sp
+    # init_state: explicit job locations (standalone buffers) and matching stores
+    ini = d.setdefault("init_state", {})
+    stdbufs = [b["name"] for b in ic.get("buffer", [])]
+    if stdbufs and rng.random() < 0.6:
+        locs = {}
+        for j in range(nj):
+            if rng.random() < 0.4:
+                locs[j] = rng.choice([stdbufs[0], stdbufs[-1]])
+                ini["j-%d" % j] = {"location": locs[j]}
+        if rng.random() < 0.6:
+            for b in set(locs.values()) | {stdbufs[0]}:
+                here = [j for j in range(nj) if locs.get(j, stdbufs[0]) == b]
+                rng.shuffle(here)
+                if here:
+                    ini[b] = {"store": ["j-%d" % j for j in here]}
+    if not ini:
+        del d["init_state"]
+    return d, feats
+
+
+FOREIGN = {"IndexError", "KeyError", "ValueError", "TypeError", "AttributeError", "StopIteration", "ZeroDivisionError",
+           "UnboundLocalError", "AssertionError", "RecursionError", "NameError"}
+
+
+def malform(rng, d):
+    """One malformed variant of a well-formed document; returns (doc, kind)."""
+    d = copy.deepcopy(d)
+    ic = d["instance_config"]
+    spec = ic["instance"]["specification"]
+    lines = [l for l in spec.split("\n")]
+    jl = [k for k, l in enumerate(lines) if l.strip().startswith("j")]
+    kind = rng.choice(["drop_op", "machine_oob", "no_description", "bad_cell", "neg_duration", "unknown_buffer_type",
+                       "short_row", "setup_missing_machine", "tools_missing_job", "no_instance", "bad_header",
+                       "neg_travel", "float_duration", "amount_missing", "garbage_line"])
+    if kind == "drop_op" and jl:
+        k = rng.choice(jl)
+        lines[k] = lines[k][:lines[k].rfind("(")].rstrip()
+        ic["instance"]["specification"] = "\n".join(lines)
+    elif kind == "machine_oob" and jl:
+        k = rng.choice(jl)
+        lines[k] = lines[k].replace("(", "(9", 1)
+        ic["instance"]["specification"] = "\n".join(lines)
+    elif kind == "no_description":
+        ic.pop("description", None)
+    elif kind == "bad_cell" and "logistics" in ic:
+        ic["logistics"]["specification"] = ic["logistics"]["specification"].replace(" ", " x", 1)
+    elif kind == "neg_duration" and jl:
+        k = rng.choice(jl)
+        lines[k] = lines[k].replace(",", ",-", 1)
+        ic["instance"]["specification"] = "\n".join(lines)
+    elif kind == "unknown_buffer_type" and "machines" in ic and isinstance(ic["machines"], dict):
+        ic["machines"]["prebuffer"] = [{"type": "stack"}]
+    elif kind == "short_row" and "logistics" in ic:
+        sp = ic["logistics"]["specification"].rstrip("\n").split("\n")
+        sp[-1] = sp[-1].rsplit(None, 1)[0]
+        ic["logistics"]["specification"] = "\n".join(sp) + "\n"
+    elif kind == "setup_missing_machine" and "setup_times" in ic:
+        ic["setup_times"] = ic["setup_times"][1:]
+    elif kind == "tools_missing_job" and "tool_usage" in ic["instance"]:
+        ic["instance"]["tool_usage"] = ic["instance"]["tool_usage"][1:]
+    elif kind == "no_instance":
+        ic.pop("instance", None)
+    elif kind == "bad_header":
+        ic["instance"]["specification"] = spec.replace("(m0,t)", "m0,t", 1)
+    elif kind == "neg_travel" and "logistics" in ic:
+        sp = ic["logistics"]["specification"].split("\n")
+        if len(sp) > 1 and "|" in sp[1]:
+            a, b = sp[1].split("|", 1)
+            vals = b.split()
+            vals[-1] = "-4"
+            sp[1] = a + "|" + " ".join(vals)
+            ic["logistics"]["specification"] = "\n".join(sp)
+    elif kind == "float_duration" and jl:
+        k = rng.choice(jl)
+        lines[k] = lines[k].replace(")", ".5)", 1)
+        ic["instance"]["specification"] = "\n".join(lines)
+    elif kind == "amount_missing" and "logistics" in ic:
+        ic["logistics"].pop("amount", None)
+    elif kind == "garbage_line":
+        lines.insert(rng.randint(1, len(lines)), "hello world")
+        ic["instance"]["specification"] = "\n".join(lines)
+    else:
+        return None, kind
+    return d, kind
+
+
+def _hash_probe(payload):
+    """Compile documents in a fresh interpreter with a given PYTHONHASHSEED; returns serialized results."""
+    import subprocess
+    import sys
+    hs, docs = payload
+    code = (
+        "import sys, json; sys.path.insert(0, %r); import jsl\n"
+        "cfg = jsl.with_cfg(jsl.load_config(), early=True)\n"
+        "docs = json.load(sys.stdin)\nout = []\n"
+        "for d in docs:\n"
+        "    try:\n"
+        "        i, s = jsl.compile_dict(d, cfg); c = jsl.Codec(i, True)\n"
+        "        i2, s2 = jsl.compile_dict(d, cfg); c2 = jsl.Codec(i2, True)\n"
+        "        a = c.inst_sx + c.state(s) + c.labels_sx(); b = c2.inst_sx + c2.state(s2) + c2.labels_sx()\n"
+        "        out.append([a, a == b])\n"
+        "    except Exception as e:\n"
+        "        out.append(['raise:' + type(e).__name__, True])\n"
+        "print('@@' + json.dumps(out))\n") % (str(jsl.VERIF) + "/harness",)
+    env = dict(os.environ, PYTHONHASHSEED=str(hs), PYTHONPATH=jsl.REPO, JSL_REPO=jsl.REPO)
+    p = subprocess.run([sys.executable, "-c", code], input=json.dumps(docs), capture_output=True, text=True, env=env,
+                       cwd=jsl.REPO, timeout=600)
+    line = next((l for l in p.stdout.splitlines() if l.startswith("@@")), None)
+    if line is None:
+        raise RuntimeError("hash probe failed: " + p.stderr[-500:])
+    return json.loads(line[2:])
+
+
+def _dsl_worker(args):
+    seed, n, big, prop = args
+    import dsl_tok
+    import sxdiff
+    rng = random.Random(seed)
+    drv = jsl.Driver()
+    cfg = jsl.with_cfg(jsl.load_config(), early=True)
+    out = {"docs": 0, "agree": 0, "unsupported": 0, "violations": [], "disagreements": [], "malformed": 0,
+           "malformed_kinds": collections.Counter(), "malformed_outcomes": collections.Counter(), "samples": [],
+           "sizes": collections.Counter(), "sections": collections.Counter(), "init_checked": 0, "docs_for_hash": []}
+    import jobshoplab.utils.exceptions as jex
+    lib_errors = {n_ for n_ in dir(jex) if isinstance(getattr(jex, n_), type)}
+    for k in range(n):
+        d, feats = gen_doc(rng, big)
+        out["docs"] += 1
+        out["sizes"]["%dx%d" % (feats["nj"], feats["nm"])] += 1
+        for sec in ("logistics", "buffer", "machines", "setup_times", "outages"):
+            if sec in d["instance_config"]:
+                out["sections"][sec] += 1
+        if "init_state" in d:
+            out["sections"]["init_state"] += 1
+        try:
+            inst, st = jsl.compile_dict(d, cfg)
+            c = jsl.Codec(inst, True)
+            impl = "(ok %s %s %s)" % (c.inst_sx, c.state(st), c.labels_sx())
+        except jsl.Unsupported as e:
+            out["unsupported"] += 1
+            continue
+        except Exception as e:  # noqa
+            impl = "(raise)"
+            inst = None
+            out["violations"].append({"kind": "compile:wellformed_rejected", "detail": "well-formed document raised %s: %s"
+                                      % (type(e).__name__, str(e)[:100]), "replay": {"dsl": d},
+                                      "facts": {"exception": type(e).__name__, "njobs": feats["nj"]}})
+        try:
+            tok = dsl_tok.tokenize(d)
+            m = drv.ask("DC %s 1" % tok)
+            if m.startswith("(raise"):
+                m = "(raise)"
+            if m == impl:
+                out["agree"] += 1
+            else:
+                out["disagreements"].append({"where": "Compiler.compile vs Dsl.compile", "replay": {
+                    "dsl": d, "impl": impl[:3000], "model": m[:3000]}})
+        except jsl.Unsupported:
+            out["unsupported"] += 1
+        if len(out["samples"]) < 1:
+            out["samples"].append({"dsl": d})
+        if inst is not None:
+            # C17: the compiled initial state is well formed (the theorem's predicates on the implementation's output)
+            drv.set_codec(c)
+            v = drv.ask("M " + c.state(st))
+            bits = v.strip("()").split()
+            import trace as _t
+            names = _t.CLAUSES
+            out["init_checked"] += 1
+            for nme, b in zip(names, bits):
+                if b != "1" and nme in ("placement", "loc", "mach_hold", "agv_hold", "claims", "capacity", "flags",
+                                        "no_overdue", "agv_phase", "idle_unclaimed"):
+                    out["violations"].append({"kind": "init:" + nme, "detail": "compiled initial state violates clause " + nme,
+                                              "replay": {"dsl": d}, "facts": {"clause": nme}})
+            if len(out["docs_for_hash"]) < 12:
+                out["docs_for_hash"].append(d)
+        # job labels: swapping the labels of two job lines must swap the jobs (or be rejected)
+        if prop == "C16" and feats["nj"] >= 2 and inst is not None and rng.random() < 0.3:
+            d2 = copy.deepcopy(d)
+            lines = d2["instance_config"]["instance"]["specification"].split("\n")
+            jl = [q for q, l in enumerate(lines) if l.strip().startswith("j")]
+            a, b = jl[0], jl[1]
+            la, lb = lines[a].split("|", 1), lines[b].split("|", 1)
+            lines[a], lines[b] = lb[0] + "|" + la[1], la[0] + "|" + lb[1]
+            d2["instance_config"]["instance"]["specification"] = "\n".join(lines)
+            out["malformed_kinds"]["swap_job_labels"] += 1
+            try:
+                i3, _ = jsl.compile_dict(d2, cfg)
+                def ops(i, k):
+                    return [(o.machine, o.duration.time) for o in i.instance.specification[k].operations]
+                if ops(i3, 0) != ops(inst, 1) or ops(i3, 1) != ops(inst, 0):
+                    out["violations"].append({"kind": "labels:ignored", "detail": "the job labelled j1 (written first) was "
+                                              "compiled as job 0: labels are ignored, line order defines the job number",
+                                              "replay": {"dsl": d2}, "facts": {}})
+            except Exception as e:  # noqa
+                pass
+        # malformed variants
+        if prop == "C16":
+            bad, kind = malform(rng, d)
+            if bad is not None:
+                out["malformed"] += 1
+                out["malformed_kinds"][kind] += 1
+                try:
+                    i2, s2 = jsl.compile_dict(bad, cfg)
+                    outcome = "accepted"
+                except Exception as e:  # noqa
+                    outcome = type(e).__name__
+                out["malformed_outcomes"]["%s:%s" % (kind, outcome)] += 1
+                if outcome in FOREIGN or (outcome != "accepted" and outcome not in lib_errors):
+                    out["violations"].append({"kind": "reject:foreign_exception", "detail": "malformed document (%s) raised %s "
+                                              "instead of a jobshoplab error" % (kind, outcome), "replay": {"dsl": bad},
+                                              "facts": {"mutation": kind, "exception": outcome}})
+                elif outcome == "accepted" and kind in ("drop_op", "machine_oob", "bad_cell", "neg_duration", "short_row",
+                                                        "setup_missing_machine", "tools_missing_job", "bad_header",
+                                                        "float_duration", "neg_travel", "garbage_line", "unknown_buffer_type"):
+                    out["violations"].append({"kind": "reject:accepted", "detail": "malformed document (%s) was compiled"
+                                              % kind, "replay": {"dsl": bad}, "facts": {"mutation": kind}})
+    for key in ("malformed_kinds", "malformed_outcomes", "sizes", "sections"):
+        out[key] = dict(out[key])
+    drv.close()
+    return out
+
+
+def _dsl_check(ctx, prop):
+    rng = random.Random(ctx.seed + (16 if prop == "C16" else 17))
+    if ctx.quick():
+        args = [(rng.randrange(1 << 30), 60, (k % 2 == 1), prop) for k in range(4)]
+    else:
+        args = [(rng.randrange(1 << 30), 500, (k % 2 == 1), prop) for k in range(16)]
+    outs = _pool_map(_dsl_worker, args)
+    tot = collections.Counter()
+    agg = {k: collections.Counter() for k in ("malformed_kinds", "malformed_outcomes", "sizes", "sections")}
+    hash_docs = []
+    for o in outs:
+        for k in ("docs", "agree", "unsupported", "malformed", "init_checked"):
+            tot[k] += o[k]
+        for k in agg:
+            agg[k].update(o[k])
+        ctx.violations.extend(o["violations"])
+        for dd in o["disagreements"][:5]:
+            ctx.broken_correspondence.append("model and implementation differ in %s" % dd["where"])
+            ctx.coverage.setdefault("disagreement_samples", []).append(dd["replay"])
+        ctx.samples.extend(o["samples"][:1])
+        hash_docs.extend(o["docs_for_hash"])
+    ctx.coverage.update({
+        "evaluations": tot["docs"] + tot["malformed"], "distinct_nontrivial": tot["docs"] + tot["malformed"],
+        "rule": "one evaluation = one document compiled by the real Compiler (validator + mappers): well-formed documents "
+                "(random optional-section combinations, layout variants, custom buffers, init_state with locations/stores, "
+                "1-12 jobs) compared as a whole (instance, initial state, buffer labels) with the extracted Coq compiler model "
+                "run on an independently tokenised document; one malformed variant per document (15 mutation kinds)",
+        "traces_validated_against_impl": tot["agree"], "documents": tot["docs"], "model_agreements": tot["agree"],
+        "outside_model": tot["unsupported"], "malformed_documents": tot["malformed"],
+        "malformed_kinds": dict(agg["malformed_kinds"]), "malformed_outcomes": dict(agg["malformed_outcomes"]),
+        "instance_sizes": dict(agg["sizes"]), "sections_present": dict(agg["sections"]),
+        "initial_states_checked": tot["init_checked"],
+    })
+    return hash_docs
+
+
+def c16(ctx):
+    _dsl_check(ctx, "C16")
+    ctx.violations = [v for v in ctx.violations if not v["kind"].startswith("init:")]
+    # spec files and the equivalent DSL text compile to the same problem
+    from pathlib import Path
+    from jobshoplab.compiler import Compiler
+    from jobshoplab.compiler.repos import SpecRepository
+    cfg = jsl.with_cfg(jsl.load_config(), early=True)
+    n = 0
+    files = sorted((Path(jsl.REPO) / "data" / "jssp_instances" / "spec_files").iterdir())
+    rng = random.Random(ctx.seed)
+    pick = files if not ctx.quick() else rng.sample(files, min(12, len(files)))
+    for f in pick:
+        try:
+            repo = SpecRepository(dir=f, loglevel="error", config=cfg)
+            i1, s1 = Compiler(cfg, loglevel="error", repo=repo).compile()
+            lines = [l for l in f.read_text().splitlines() if l.strip() and not l.strip().startswith("#")]
+            first = next(k for k, l in enumerate(lines) if len(l.split()) == 2)
+            routes = []
+            for l in lines[first + 1:]:
+                nums = [int(z) for z in l.split()]
+                routes.append([(nums[k], nums[k + 1]) for k in range(0, len(nums), 2)])
+            i2, s2 = jsl.compile_dict(classic_dict(routes), cfg)
+            c1, c2 = jsl.Codec(i1, True), jsl.Codec(i2, True)
+            n += 1
+            if c1.inst_sx != c2.inst_sx or c1.state(s1) != c2.state(s2):
+                ctx.viol("spec:differs", "spec file %s and the equivalent DSL text compile to different problems" % f.name,
+                         {"file": str(f)})
+        except Exception as e:  # noqa
+            ctx.viol("spec:raises", "spec file %s: %s" % (f.name, type(e).__name__), {"file": str(f)},
+                     facts={"exception": type(e).__name__})
+    ctx.coverage["spec_files_compared_with_dsl"] = n
+
+
+def c17(ctx):
+    docs = _dsl_check(ctx, "C17")
+    ctx.violations = [v for v in ctx.violations if v["kind"].startswith("init:") or v["kind"] == "compile:wellformed_rejected"]
+    # same text, other interpreter processes with different string hashing
+    docs = docs[: (16 if ctx.quick() else 80)]
+    seeds = [0, 1, 4242, 31337] if ctx.quick() else [0, 1, 2, 3, 17, 4242, 31337, 99991]
+    res = _pool_map(_hash_probe, [(hs, docs) for hs in seeds])
+    ndiff = 0
+    for k, d in enumerate(docs):
+        vals = {r[k][0] for r in res}
+        same_twice = all(r[k][1] for r in res)
+        if len(vals) != 1 or not same_twice:
+            ndiff += 1
+            ctx.viol("determinism:differs", "the same document compiles differently across PYTHONHASHSEED values or twice "
+                     "in one process", {"dsl": d, "hash_seeds": seeds})
+    ctx.coverage["documents_recompiled_across_hash_seeds"] = len(docs)
+    ctx.coverage["hash_seeds"] = seeds
+
+
+TABLE = {"C06": c06, "C19": c19, "C14": c14, "C15": c15, "C16": c16, "C17": c17}
